@@ -57,6 +57,22 @@ def _zero_size(v):
     return False
 
 
+@predicate("zero_size_rechunk_noop")
+def _zero_rechunk(v):
+    """rechunk of an array with a zero-length dimension is a deliberate no-op ('no data to move'), so the array
+    keeps its old chunks; nanmedian relies on rechunk to bring the reduced axis into one chunk and, with
+    keepdims=True, then declares one output element per remaining block along that axis (wrong shape)."""
+    f = v.get("facts", {})
+    c = f.get("culprit") or {}
+    return (
+        v.get("kind") == "value-mismatch"
+        and c.get("op") == "nanmedian"
+        and bool((c.get("p") or {}).get("keepdims"))
+        and any(0 in tuple(sh) for sh in c.get("in_shapes", []))
+        and str(c.get("diff", "")).startswith("shape differs")
+    )
+
+
 @predicate("pickle_name_collision")
 def _pickle_names(v):
     """Array/op names come from per-process counters and are the identity of nodes when plans are
